@@ -1,6 +1,7 @@
 package main
 
 import (
+	"regexp"
 	"fmt"
 	"go/ast"
 	"go/constant"
@@ -618,7 +619,17 @@ func (e *SpecEnv) evalCall(x *ast.CallExpr) Term {
 		return boolTerm(fmt.Sprintf("(exists ((%s Int)) (and %s %s))", bv, rng, body))
 	case "all", "any":
 		name := arg(0).(*ast.Ident).Name
-		t, g := vc.resolveType(arg(1), e.pkg)
+		tyExpr := arg(1)
+		unbounded := false
+		if ce, ok := tyExpr.(*ast.CallExpr); ok {
+			if fid, ok := ce.Fun.(*ast.Ident); ok && fid.Name == "unbounded" && len(ce.Args) == 1 {
+				// unbounded(T): references range over all object identities, allocated or not (no alloc bound in
+				// the guard; use when the body itself implies allocation, e.g. membership in a map)
+				unbounded = true
+				tyExpr = ce.Args[0]
+			}
+		}
+		t, g := vc.resolveType(tyExpr, e.pkg)
 		vc.bvN++
 		bv := fmt.Sprintf("%s!q%d", sanitize(name), vc.bvN)
 		var bt Term
@@ -632,6 +643,9 @@ func (e *SpecEnv) evalCall(x *ast.CallExpr) Term {
 		if g == nil {
 			// quantified values range over well-formed values of the type (refs: allocated objects incl. nil)
 			guard = vc.u.WF(bv, t, e.st.alloc)
+			if unbounded {
+				guard = reUnbAlloc.ReplaceAllString(vc.u.WF(bv, t, "alloc@unb"), "true")
+			}
 		}
 		if id.Name == "all" {
 			return boolTerm(fmt.Sprintf("(forall ((%s %s)) %s)", bv, bt.Sort, imp(guard, body)))
@@ -1064,6 +1078,8 @@ func (e *SpecEnv) applyFuncTerm(f Term, args []Term, at ast.Expr) Term {
 }
 
 // ghost heaps declared with `ghost name T`
+var reUnbAlloc = regexp.MustCompile(`\(< [^()]+ alloc@unb\)`)
+
 func (vc *VC) ghostHeap(name string, pkg *types.Package) (hname, hsort string, t types.Type, g *ghostType) {
 	d, ok := vc.p.con.Ghosts[name]
 	if !ok {
